@@ -4,3 +4,4 @@ import Zeno.Props.C12
 import Zeno.Props.C11
 import Zeno.Props.C13
 import Zeno.Props.C17
+import Zeno.Props.C14
